@@ -435,6 +435,10 @@ func (ft *funcTrans) instrMods(in ssa.Instruction, li *loopInfo) {
 	case *ssa.Defer, *ssa.RunDefers:
 		li.modAll = true
 	case *ssa.Send, *ssa.Select:
+		if srt, ok := w.P.Spec.Ghosts["sendAttempts"]; ok {
+			w.heapSorts["G_ghost.sendAttempts"] = srt
+			li.modHeaps["G_ghost.sendAttempts"] = true
+		}
 		if srt, ok := w.P.Spec.Ghosts["sentSet"]; ok {
 			w.heapSorts["G_ghost.sentSet"] = srt
 			li.modHeaps["G_ghost.sentSet"] = true
